@@ -59,6 +59,9 @@ DST_FOLLOW = {
     "empty": [("md0",), ("eof", 0, "NO_ERROR", 1), ("tick",), ("tick",), ("ackfin",), ("tick",)],
     "nomd": [("fd", 0, 2, 0), ("tick",), ("eof", 4, "NO_ERROR", 1), ("tick",), ("md",), ("tick",), ("expire",), ("fd", 0, 2, 0), ("fd", 2, 2, 0), ("tick",), ("tick",)],
     "mdonly": [("mdonly",), ("tick",), ("tick",), ("ackfin",), ("tick",)],
+    # three gaps, and (suffix _crc) PDUs with the CRC flag and a 4 byte sequence number: larger PDU overhead than the history's
+    "gaps3": [("md10",), ("fd", 2, 2, 0), ("fd", 6, 2, 0), ("eof", 10, "NO_ERROR", 1), ("tick",), ("tick",), ("expire",), ("tick",)],
+    "gaps3_crc": [("md10",), ("fd", 2, 2, 0), ("fd", 6, 2, 0), ("eof", 10, "NO_ERROR", 1), ("tick",), ("tick",), ("expire",), ("tick",)],
     "cancel": [("md",), ("fd", 2, 2, 0), ("cancel",), ("tick",), ("tick",), ("ackfin",), ("tick",)],
     "silence": [("md",), ("fd", 0, 2, 0), ("eof", 4, "NO_ERROR", 1), ("tick",), ("expire",), ("expire",), ("expire",), ("expire",), ("tick",)],
 }
@@ -97,10 +100,17 @@ class HistDst(DstWorld):
             m["busy_seen"] = True
         st.m = m
 
-    def follow_pdu(self, st, e, mode):
+    def follow_pdu(self, st, e, mode, wide=False):
         c = dict(self.c, mode=mode)
-        conf = pdus.conf(src=(1, c["idw_s"]), dst=(2, c["idw_d"]), seq=(st.seq, c["seqw"]), mode=mode, crc=c["crc_flag"])
+        conf = pdus.conf(src=(1, c["idw_s"]), dst=(2, c["idw_d"]), seq=(st.seq, 4 if wide else c["seqw"]), mode=mode, crc=True if wide else c["crc_flag"])
+        src10 = core.content(10)
         k = e[0]
+        if k == "md10":
+            return pdus.build("MD", conf, closure=c["closure"], cks=c["cks"], size=10, sname=core.SRC_PATH, dname=core.dest_path_requested(c))
+        if k == "fd" and len(st.src) < 10 and e[1] + e[2] > len(st.src):
+            return pdus.build("FD", conf, data=src10[e[1]:e[1] + e[2]], off=e[1])
+        if k == "eof" and e[1] == 10:
+            return pdus.build("EOF", conf, size=10, cond=e[2], cksum=refcks.REF[c["cks"]](src10))
         if k == "md":
             return pdus.build("MD", conf, closure=c["closure"], cks=c["cks"], size=4, sname=core.SRC_PATH, dname=core.dest_path_requested(c))
         if k == "md0":
@@ -115,7 +125,7 @@ class HistDst(DstWorld):
             return pdus.build("ACKF", conf)
         raise ValueError(e)
 
-    def run_script(self, st, ent, script, mode):
+    def run_script(self, st, ent, script, mode, wide=False):
         obs_list = []
         for e in script:
             if e[0] == "tick":
@@ -129,7 +139,7 @@ class HistDst(DstWorld):
                 o, msgs, ret = ent.call(ent.h.cancel_request, self.cur_tid(st))
                 o["ret"] = ret
             else:
-                o, msgs = ent.step(self.follow_pdu(st, e, mode))
+                o, msgs = ent.step(self.follow_pdu(st, e, mode, wide))
             if msgs:
                 o["out"] = [m.d for m in msgs]
             sandbox.invalidate()
@@ -147,13 +157,14 @@ class HistDst(DstWorld):
         st.seq += 1
         t0 = sandbox.tree()
         reg0 = snapshot.REGISTRY.save()
-        hist = self.run_script(st, st.D, script, mode)
+        wide = name.endswith("_crc")
+        hist = self.run_script(st, st.D, script, mode, wide)
         # reference: pristine process-global state, freshly constructed handler, same filesystem state
         sandbox.invalidate()
         sandbox.restore(t0)
         snapshot.REGISTRY.reset()
         fresh_ent = core.make_dest(self.c, vfs=FaultyFilestore())
-        fresh = self.run_script(st, fresh_ent, script, mode)
+        fresh = self.run_script(st, fresh_ent, script, mode, wide)
         sandbox.invalidate()
         snapshot.REGISTRY.load(reg0)
         st.m = dict(st.m, done=True)
@@ -420,6 +431,8 @@ def run(tier: str) -> int:
         worlds.append(HistSrc(mode=mode, closure=True, size=4, seg=2, ack_limit=1, hist_depth=7 if tier == "quick" else 9))
     # segment length derived from the maximum packet length (no configured value); histories with a wider destination id field
     worlds.append(HistSrc(mode="unack", closure=False, size=14, seg=None, mpl=30, hist_depth=5 if tier == "quick" else 7))
+    # small maximum packet length (3 segment requests per NAK PDU without, 2 with the PDU CRC flag)
+    worlds.append(HistDst(mode="ack", nak="imm", closure=False, size=4, seg=2, mpl=43, ack_limit=1, nak_limit=2, hist_depth=hd - 1, follow_modes=("ack",)))
     # re-sends (positive ACK limit 2) inside the history and inside the follow-ups
     worlds.append(HistSrc(mode="ack", closure=False, size=2, seg=2, ack_limit=2, hist_depth=7 if tier == "quick" else 9))
     worlds.append(HistDst(mode="ack", nak="def", closure=False, size=4, seg=2, ack_limit=2, nak_limit=2, hist_depth=hd, follow_modes=("ack",)))
